@@ -186,6 +186,9 @@ func propC14(c *Ctx, r *Report) {
 	r.Clauses = append(r.Clauses, "converted override values (E17): every store into the table of resolved override values ([]float64 sized by the module's overrides) takes its value from a call that receives the override's declared type, so overrides and initialisers that depend on an override see its value converted to its type")
 	c.runOverrideConverted(r, "override.converted")
 	r.floor("override.converted", 1)
+	r.Clauses = append(r.Clauses, "typed override defaults (E17): the function that turns an override's numeric default (OverrideInitLiteral, a float64) into an IR literal chooses the literal's kind from the override's type")
+	c.runOverrideLiteralKind(r, "override.literalkind")
+	r.floor("override.literalkind", 1)
 	r.Clauses = append(r.Clauses, sharedCellClause)
 	c.runPtrSharedCell(r, "ptr.sharedcell", inPkgs("ir", "msl", "glsl", "hlsl", "spirv"))
 	r.floor("ptr.closures", 2)
